@@ -7,18 +7,18 @@ D=$1; WT=$2
 PKG=$(python3 -c "import json;print(json.load(open('$D/meta.json'))['demo_package'])")
 PKG=${PKG#./}
 cd $WT && git checkout -q -- . && git clean -fdq
-mkov() { python3 - "$WT" "$PKG" "$D" <<'PY'
+mkov() { python3 - "$WT" "$PKG" "$D" "/tmp/seedout/confirm-overlay-$$.json" <<'PY'
 import sys,os,json
-wt,pkg,d=sys.argv[1:4]
+wt,pkg,d,ovf=sys.argv[1:5]
 rep={}
 for f in os.listdir(os.path.join(wt,pkg)):
     if f.endswith('_test.go'): rep[os.path.join(wt,pkg,f)]=""
 rep[os.path.join(wt,pkg,'zz_seed_demo_test.go')]=os.path.join(d,'zz_seed_demo_test.go')
-json.dump({"Replace":rep},open('/tmp/seedout/confirm-overlay.json','w'))
+json.dump({"Replace":rep},open(ovf,'w'))
 PY
 }
 suite() { go test -vet=off -count=1 ./pkg/filesystem/access/... ./pkg/scheduler/invocation/... ./pkg/scheduler/platform/... >/dev/null 2>&1; }
-demo() { mkov; go test -overlay /tmp/seedout/confirm-overlay.json -vet=off -count=1 -timeout 120s -run 'TestSeedDemo' ./$PKG > /tmp/seedout/confirm-demo.log 2>&1; }
+demo() { mkov; go test -overlay /tmp/seedout/confirm-overlay-$$.json -vet=off -count=1 -timeout 120s -run 'TestSeedDemo' ./$PKG > /tmp/seedout/confirm-demo-$$.log 2>&1; }
 res=""
 suite && res="$res clean-suite=pass" || res="$res clean-suite=FAIL"
 demo && res="$res clean-demo=pass" || res="$res clean-demo=FAIL"
@@ -26,7 +26,7 @@ git apply $D/patch.diff || { echo "patch does not apply"; exit 1; }
 go build ./pkg/... >/dev/null 2>&1 && res="$res mut-build=ok" || res="$res mut-build=FAIL"
 suite && res="$res mut-suite=pass" || res="$res mut-suite=FAIL"
 demo && res="$res mut-demo=pass" || res="$res mut-demo=FAIL"
-tail -5 /tmp/seedout/confirm-demo.log | cut -c1-200
+tail -5 /tmp/seedout/confirm-demo-$$.log | cut -c1-200
 git checkout -q -- . && git clean -fdq
 echo "RESULT $res"
 case "$res" in *"clean-suite=pass clean-demo=pass mut-build=ok mut-suite=pass mut-demo=FAIL"*) exit 0;; esac
